@@ -59,7 +59,7 @@ BLOCK = [
 ]
 
 UNIT = Unit(
-    name='opt_swift', props=['C04', 'C07'], pre_verus=O.PRE_VERUS, spec_files=['std_slices.rs', 'typexpr.rs', 'txt.rs', 'optmark.rs'], prelude=PRELUDE,
+    name='opt_swift', props=['C04', 'C07'], pre_verus=O.PRE_VERUS, spec_files=['std_slices.rs', 'seqjoin.rs', 'typexpr.rs', 'txt.rs', 'optmark.rs'], prelude=PRELUDE,
     items=O.base_items('Swift', SRC) + [
         Item('stored_property_block', SRC, ['impl Language for Swift {', 'fn write_struct'], BLOCK, wrap=WRAP,
              block=(A.text('coding_keys.push(remove_dash_from_identifier( swift_keyword_aware_rename(&f.id.renamed).as_ref(), )); }'),
